@@ -2,4 +2,4 @@ From TLXV Require Import C10.Pool.
 Require Extraction. Require ExtrOcamlBasic.
 Extraction Language OCaml.
 Extraction "../ocaml/gen/C10_model.ml" Pool.lstep_gen Pool.init Pool.quiescentb Pool.stranded Pool.some_stranded
-  Pool.le_pred Pool.lt_pred Pool.get Pool.cands.
+  Pool.le_pred Pool.lt_pred Pool.get Pool.cands Pool.xstep.
